@@ -18,6 +18,111 @@ import (
 // Statement order and nesting order are preserved (pre-order walk), so removing,
 // adding or reordering a call, a branch or a return changes the list.
 func g12Skeleton(f *File, body *ast.BlockStmt) []string {
+	return g12SkeletonFn(f, nil, body)
+}
+
+// g12AlphaRename replaces the names of the receiver, the parameters, the named results and every
+// local variable / constant of a function by $0, $1, ... in order of declaration, so that renaming
+// a local does not change the skeleton.  (go/parser resolves identifiers to their declaring
+// objects; the AST is private to this run, so it is renamed in place.)
+func g12AlphaRename(fd *ast.FuncDecl) {
+	names := map[*ast.Object]string{}
+	next := 0
+	assign := func(id *ast.Ident) {
+		if id == nil || id.Obj == nil || id.Name == "_" {
+			return
+		}
+		if _, ok := names[id.Obj]; !ok && (id.Obj.Kind == ast.Var || id.Obj.Kind == ast.Con) {
+			names[id.Obj] = "$" + itoaSmall(next)
+			next++
+		}
+	}
+	fields := func(fl *ast.FieldList) {
+		if fl == nil {
+			return
+		}
+		for _, fld := range fl.List {
+			for _, n := range fld.Names {
+				assign(n)
+			}
+		}
+	}
+	fields(fd.Recv)
+	fields(fd.Type.Params)
+	fields(fd.Type.Results)
+	// declarations inside the body, in source order
+	ast.Inspect(fd.Body, func(x ast.Node) bool {
+		switch n := x.(type) {
+		case *ast.AssignStmt:
+			if n.Tok.String() == ":=" {
+				for _, l := range n.Lhs {
+					if id, ok := l.(*ast.Ident); ok && id.Obj != nil && id.Obj.Decl == n {
+						assign(id)
+					}
+				}
+			}
+		case *ast.ValueSpec:
+			for _, id := range n.Names {
+				assign(id)
+			}
+		case *ast.RangeStmt:
+			if n.Tok.String() == ":=" {
+				if id, ok := n.Key.(*ast.Ident); ok {
+					assign(id)
+				}
+				if id, ok := n.Value.(*ast.Ident); ok {
+					assign(id)
+				}
+			}
+		case *ast.FuncLit:
+			fields(n.Type.Params)
+			fields(n.Type.Results)
+		case *ast.TypeSwitchStmt:
+			if as, ok := n.Assign.(*ast.AssignStmt); ok {
+				for _, l := range as.Lhs {
+					if id, ok := l.(*ast.Ident); ok {
+						assign(id)
+					}
+				}
+			}
+		}
+		return true
+	})
+	rename := func(root ast.Node) {
+		ast.Inspect(root, func(x ast.Node) bool {
+			if id, ok := x.(*ast.Ident); ok && id.Obj != nil {
+				if nn, ok := names[id.Obj]; ok {
+					id.Name = nn
+				}
+			}
+			return true
+		})
+	}
+	if fd.Recv != nil {
+		rename(fd.Recv)
+	}
+	rename(fd.Type)
+	rename(fd.Body)
+}
+
+func itoaSmall(n int) string {
+	if n == 0 {
+		return "0"
+	}
+	s := ""
+	for n > 0 {
+		s = string(rune('0'+n%10)) + s
+		n /= 10
+	}
+	return s
+}
+
+// g12SkeletonFn: skeleton of a function declaration after alpha-renaming its locals (fd may be nil: no renaming).
+func g12SkeletonFn(f *File, fd *ast.FuncDecl, body *ast.BlockStmt) []string {
+	if fd != nil {
+		g12AlphaRename(fd)
+		body = fd.Body
+	}
 	var out []string
 	var walkStmt func(s ast.Stmt)
 	var walkExpr func(e ast.Node)
@@ -109,15 +214,16 @@ func g12Skeleton(f *File, body *ast.BlockStmt) []string {
 			for _, r := range n.Rhs {
 				walkExpr(r)
 			}
-			// assignments to fields of the response / request are part of the skeleton
+			// assignments to fields (x.f = ...) and re-assignments of variables (x = ...) are part of the skeleton;
+			// short declarations (x := call()) are represented by their call token
 			for _, l := range n.Lhs {
-				ls := f.Src(l)
-				if strings.HasPrefix(ls, "res.") || strings.HasPrefix(ls, "req.") || ls == "code" || ls == "res" || ls == "req" {
+				_, isSel := l.(*ast.SelectorExpr)
+				if isSel || n.Tok.String() == "=" {
 					var rs []string
 					for _, r := range n.Rhs {
 						rs = append(rs, f.Src(r))
 					}
-					out = append(out, "set "+ls+" = "+strings.Join(rs, ", "))
+					out = append(out, "set "+f.Src(l)+" = "+strings.Join(rs, ", "))
 				}
 			}
 		case *ast.DeclStmt:
